@@ -12,7 +12,7 @@ RULE = ("discount / discount_chain (chains of 1..4) on well-formed opinions and 
         "M2/M3/D2/D3/N2/N3 = MArr2/MArr3/MArrD2/MArrD3 with usize and newtype indices, shapes 1x2 .. 2x2x3 incl. every asymmetric "
         "one; operands built with `new`, results read cell by cell through the index operator and compared with an independently "
         "built container); btrans_unc, btrans_bsr, btrans_opp on the binomial "
-        "grid incl. arguments slightly outside [0,1] (must panic); f32+f64. non-trivial = value returned")
+        "grid incl. arguments slightly outside [0,1] (must panic); single discounts by trust levels at and below the zero tolerance (eps/4 .. 3 eps, tiny values) through every receiver form, with the belief formula also read RELATIVELY (clause formula_belief_relative: |b' - t b| <= 4 eps t b for an operand that is not vacuous by the guard); f32+f64. non-trivial = value returned")
 EXHAUSTIVE = {}
 nontrivial = default_nontrivial
 LEVEL_TEXT = ("Theorems for every n and all rational inputs: discount formula, vacuous guard arm, well-formedness, projection "
@@ -66,6 +66,16 @@ def cases(rng, tier):
                     out.append(G.line(op, fmt, "B.o", [], x + [tb, td]))
                 else:
                     out.append(G.line(op, fmt, "B.o", [], x + [t]))
+        for _ in range(N // 10):
+            # single discount by a trust level at or below the zero tolerance (positive): every receiver form must still scale the
+            # masses (clause formula_belief_relative; seeded variant C10_r5B: is_zero(t) fast path on the owned receiver only)
+            n = rng.choice([1, 2, 3, 4])
+            den = rng.choice([4, 8, 16])
+            w = G.rand_opinion(rng, n, den, rng.choice(["int", "int", "any", "dog"]))
+            e = G.EPS[fmt]
+            t = rng.choice(list(G.TINY[fmt]) + [e / 2, e, e / 4, 2 * e, 3 * e])
+            for st in ("o", "r", "o.s"):
+                out.append(G.line("discount", fmt, rng.choice(["M", "D", "N"]) + "." + st, [n], w + [t]))
         for _ in range(N // 3):
             # 2-D / 3-D domains
             fam, sh, n = G.nd_family(rng)
